@@ -143,6 +143,63 @@ def apply_loop_rule(rule, header, ghost, log, unit):
             bp = 'let %s = &%s[%s];' % (X, E, I)
         log.append({'unit': unit, 'rule': rule if rule == 'R1v' else 'R1', 'before': h, 'after': nh + ' { ' + bp + ' .. }'})
         return '', nh, bp, ''
+    if rule in ('RIM', 'RIMm'):
+        # for X in E.iter_mut()   (slice / Vec, or DenseMatrix rows for RIMm)  ->  indexed loop, X re-borrowed mutably each turn
+        m = re.match(r'for\s+(\w+)\s+in\s+(.+?)\s*\.iter_mut\(\)$', h, re.S)
+        if not m:
+            raise ExtractError('%s: loop header does not match %s: %s' % (unit, rule, h))
+        X, E = m.group(1), m.group(2)
+        ln = ('%s.rows()' if rule == 'RIMm' else '%s.len()') % E
+        pre = '{ let __n_%s = %s; ' % (X, ln)       # the length is read once, as `iter_mut()` does
+        nh = 'for __i_%s in 0..__n_%s' % (X, X)
+        bp = 'let %s = &mut %s[__i_%s];' % (X, E, X)
+        log.append({'unit': unit, 'rule': rule, 'before': h, 'after': pre + nh + ' { ' + bp + ' .. } }'})
+        return pre, nh, bp, ' }'
+    if rule == 'RZM':
+        # for (X, &F) in A.iter_mut().zip(B)   ->  indexed loop over the shorter, X re-borrowed mutably, F copied
+        m = re.match(r'for\s*\(\s*(\w+)\s*,\s*&\s*(\w+)\s*\)\s+in\s+(.+?)\s*\.iter_mut\(\)\s*\.zip\(\s*(.+?)\s*\)$', h, re.S)
+        if not m:
+            raise ExtractError('%s: loop header does not match RZM: %s' % (unit, h))
+        X, F, A, B = m.group(1), m.group(2), m.group(3), m.group(4)
+        pre = '{ let __b_%s = %s; let __n_%s = if %s.len() < __b_%s.len() { %s.len() } else { __b_%s.len() }; ' % (X, B, X, A, X, A, X)
+        nh = 'for __i_%s in 0..__n_%s' % (X, X)
+        bp = 'let %s = &mut %s[__i_%s]; let %s = __b_%s[__i_%s];' % (X, A, X, F, X, X)
+        log.append({'unit': unit, 'rule': 'RZM', 'before': h, 'after': pre + nh + ' { ' + bp + ' .. } }'})
+        return pre, nh, bp, ' }'
+    if rule == 'RZR':
+        # for (S, D) in A.iter().zip(B.iter_mut())   (A, B: DenseMatrix; their row iterators visit rows 0..rows in order)
+        #   -> indexed loop over the shorter, S shared, D re-borrowed mutably
+        m = re.match(r'for\s*\(\s*(\w+)\s*,\s*(\w+)\s*\)\s+in\s+(.+?)\s*\.iter\(\)\s*\.zip\(\s*(.+?)\s*\.iter_mut\(\)\s*\)$', h, re.S)
+        if not m:
+            raise ExtractError('%s: loop header does not match RZR: %s' % (unit, h))
+        S, D, A, B = m.group(1), m.group(2), m.group(3), m.group(4)
+        pre = '{ let __n_%s = if %s.rows() < %s.rows() { %s.rows() } else { %s.rows() }; ' % (S, A, B, A, B)
+        nh = 'for __i_%s in 0..__n_%s' % (S, S)
+        bp = 'let %s = &%s[__i_%s]; let %s = &mut %s[__i_%s];' % (S, A, S, D, B, S)
+        log.append({'unit': unit, 'rule': 'RZR', 'before': h, 'after': pre + nh + ' { ' + bp + ' .. } }'})
+        return pre, nh, bp, ' }'
+    if rule == 'RZE':
+        # for (J, (&X, &F)) in A.iter().zip(B).enumerate()   (A, B: slices)  ->  indexed loop over the shorter, items copied
+        m = re.match(r'for\s*\(\s*(\w+)\s*,\s*\(\s*&\s*(\w+)\s*,\s*&\s*(\w+)\s*\)\s*\)\s+in\s+(.+?)\s*\.iter\(\)\s*\.zip\(\s*(.+?)\s*\)\s*\.enumerate\(\)$', h, re.S)
+        if not m:
+            raise ExtractError('%s: loop header does not match RZE: %s' % (unit, h))
+        J, X, F, A, B = m.groups()
+        pre = '{ let __b_%s = %s; let __n_%s = if %s.len() < __b_%s.len() { %s.len() } else { __b_%s.len() }; ' % (J, B, J, A, J, A, J)
+        nh = 'for %s in 0..__n_%s' % (J, J)
+        bp = 'let %s = %s[%s]; let %s = __b_%s[%s];' % (X, A, J, F, J, J)
+        log.append({'unit': unit, 'rule': 'RZE', 'before': h, 'after': pre + nh + ' { ' + bp + ' .. } }'})
+        return pre, nh, bp, ' }'
+    if rule == 'R1b':
+        # for (I, X) in EXPR.iter().enumerate()  with EXPR an exec call: bind it once (as the iterator does), then index
+        m = re.match(r'for\s*\(\s*(\w+)\s*,\s*(\w+)\s*\)\s+in\s+(.+?)\s*\.iter\(\)\s*\.enumerate\(\)$', h, re.S)
+        if not m:
+            raise ExtractError('%s: loop header does not match R1b: %s' % (unit, h))
+        I, X, E = m.group(1), m.group(2), m.group(3)
+        pre = '{ let __e_%s = %s; ' % (X, E)
+        nh = 'for %s in 0..__e_%s.len()' % (I, X)
+        bp = 'let %s = &__e_%s[%s];' % (X, X, I)
+        log.append({'unit': unit, 'rule': 'R1b', 'before': h, 'after': pre + nh + ' { ' + bp + ' .. } }'})
+        return pre, nh, bp, ' }'
     if rule in ('R3', 'R3m'):
         m = re.match(r'for\s*\(\s*(\w+)\s*,\s*(&?)\s*(\w+)\s*\)\s+in\s+(.+?)\s*\.iter\(\)\s*\.rev\(\)\s*\.enumerate\(\)$', h, re.S)
         if not m:
@@ -228,12 +285,13 @@ REWRITE_RULES = {
     'W': lambda a, b: re.fullmatch(r'(.+)\.len\(\)', a) and b == 'range_len(&%s)' % re.fullmatch(r'(.+)\.len\(\)', a).group(1),
     'R6': lambda a, b: a.replace('|', '||', 1) == b or a.replace(' | ', ' || ') == b,
     # R7: compound assignment on a primitive float (Verus crashes on `f32 +=`): `x op= e` -> `x = x op e`
-    'R7': lambda a, b: bool(re.fullmatch(r'(\w+)\s*([-+*/])=\s*(.+)', a, re.S)) and (lambda m: b == '%s = %s %s %s' % (m.group(1), m.group(1), m.group(2), m.group(3)))(re.fullmatch(r'(\w+)\s*([-+*/])=\s*(.+)', a, re.S)),
+    'R7': lambda a, b: bool(re.fullmatch(r'(\*?\w+)\s*([-+*/])=\s*(.+)', a, re.S)) and (lambda m: b == '%s = %s %s %s' % (m.group(1), m.group(1), m.group(2), m.group(3)))(re.fullmatch(r'(\*?\w+)\s*([-+*/])=\s*(.+)', a, re.S)),
     # T1: explicit type ascription on a `let` whose type rustc infers from later uses (ghost text needs it earlier)
     'T1': lambda a, b: bool(re.fullmatch(r'(let\s+(mut\s+)?\w+)(\s*=.*)', a, re.S)) and re.sub(r'^(let\s+(mut\s+)?\w+)\s*:\s*[^=]+?(\s*=)', r'\1\3', b, flags=re.S) == a,
     # CL: closure `|x| EXPR` given explicit parameter/return types and ghost requires/ensures: `|x: T| -> (r: U) requires .. ensures .. { EXPR }`
     'CL': lambda a, b: (lambda m: bool(m) and re.search(r'\|\s*%s\s*:' % re.escape(m.group(1)), b) is not None and norm_ws(b).endswith(norm_ws('{ ' + m.group(2) + ' }')))(re.fullmatch(r'\|\s*(\w+)\s*\|\s*(.+)', a, re.S)),
     'S1': lambda a, b: True,   # monomorphisation of a generic parameter / iterator type; logged
+    'S2': lambda a, b: True,   # by-value `mut self` modelled as `&mut self` (Verus has no `mut self`): the final move out of self is a take; logged
     'W2': lambda a, b: True,   # call routed through a prelude wrapper whose body is that same call; logged
 }
 
@@ -243,6 +301,9 @@ def transform_body(unit, body, directives, log):
     mbody = mask(body)
     loops = find_loops(body, mbody)
     edits = []  # (start, end, replacement)
+    in_header = set()   # start offsets of rewrite matches consumed by a loop-header edit
+    # loop directives first (they may consume rewrites located in their headers), everything else in template order
+    directives = [d for d in directives if d['kind'] == 'loop'] + [d for d in directives if d['kind'] != 'loop']
     used_loops = set()
     body_start_ghost = {}
     for d in directives:
@@ -295,6 +356,19 @@ def transform_body(unit, body, directives, log):
             used_loops.add(k)
             s, he, close = loops[k]
             header = body[s:he]
+            # declared rewrites that fall inside this loop header are applied to the header text itself (the loop edit
+            # replaces the whole header, so they cannot be separate edits)
+            for d2 in directives:
+                if d2['kind'] != 'rewrite':
+                    continue
+                pat2 = r'\s+'.join(re.escape(tok) for tok in d2['from'].split())
+                for m2 in list(re.finditer(pat2, body)):
+                    if s <= m2.start() and m2.end() <= he and mbody[m2.start()] == body[m2.start()]:
+                        if d2['rule'] not in REWRITE_RULES or not REWRITE_RULES[d2['rule']](d2['from'], d2['to']):
+                            raise ExtractError('%s: rewrite `%s` => `%s` is not an instance of rule %s' % (unit, d2['from'], d2['to'], d2['rule']))
+                        header = re.sub(pat2, lambda _m: d2['to'], header, count=1)
+                        in_header.add(m2.start())
+                        log.append({'unit': unit, 'rule': d2['rule'], 'before': d2['from'], 'after': d2['to']})
             if d.get('expect') and norm_ws(d['expect']) not in norm_ws(header):
                 raise ExtractError('%s: loop %d header changed: `%s`' % (unit, k, header.strip()))
             pre, nh, bp, suf = apply_loop_rule(d.get('rule'), header, ghost, log, unit)
@@ -319,9 +393,11 @@ def transform_body(unit, body, directives, log):
                 raise ExtractError('%s: rewrite `%s` => `%s` is not an instance of rule %s' % (unit, a, b, rule))
             pat = r'\s+'.join(re.escape(tok) for tok in a.split())
             ms = [m for m in re.finditer(pat, body) if mbody[m.start()] == body[m.start()]]
-            if (d['count'] == 0 and not ms) or (d['count'] != 0 and len(ms) != d['count']):
+            if (d['count'] == 0 and not ms) or (d['count'] > 0 and len(ms) != d['count']):
                 raise ExtractError('%s: rewrite `%s` expected %d occurrence(s), found %d' % (unit, a, d['count'], len(ms)))
             for m in ms:
+                if m.start() in in_header:
+                    continue          # already applied to the text of a rewritten loop header
                 edits.append((m.start(), m.end(), b))
                 log.append({'unit': unit, 'rule': rule, 'before': a, 'after': b})
     # loops with no directive are kept verbatim (Verus will demand invariants if it needs them)
@@ -469,10 +545,11 @@ def process(template_path, info, out_lines, depth=0):
                     rest = t[len('//@rewrite '):].strip()
                     rule, rest = rest.split(None, 1)
                     cnt = 1
-                    mm = re.match(r'x(\d+|\*)\s+(.*)', rest)
+                    mm = re.match(r'x(\d+|\*|\?)\s+(.*)', rest)
                     if mm:
-                        # `x*`: every occurrence (at least one) - for call wrappers whose number of uses may legitimately change
-                        cnt, rest = (0 if mm.group(1) == '*' else int(mm.group(1))), mm.group(2)
+                        # `x*`: every occurrence (at least one), `x?`: every occurrence (possibly none) - for call wrappers whose number of
+                        # uses may legitimately change
+                        cnt, rest = ({'*': 0, '?': -1}.get(mm.group(1)) if mm.group(1) in '*?' else int(mm.group(1))), mm.group(2)
                     a, rest = parse_q(rest)
                     rest = rest.strip()
                     if not rest.startswith('=>'):
